@@ -9,7 +9,13 @@ and the total progress CheckStatus stores.  harness/c05_impl.py (documents, _new
 
 A case (JSON-able): {'pre': stages before the loop, 'K': stages spanned by the loop, 'width': [components per looped
 stage], 'iters': iterations run, 'post': 0|1 plain stage after the loop, 'weights': thousandths per stage (or None),
-'seed': order of the terminations}"""
+'seed': order of the terminations, 'start': index of the stage the run STARTS at (absent = 0; > 0 is a RESTART: the first
+Controller.initialise() is for a later stage, the stages before it were completed by an earlier run - the Controller
+marks their components as done and nothing is ever delivered for them)}
+
+The observation keeps two views of the nodes: 'nodes' = [stage, active?] where active means "no termination was
+DELIVERED by this driver" (the model applies the restart itself: Weights.Model.restart_nodes), and 'done' = per stage
+[terminated or skipped, nodes] (what the weighted fraction is computed from)."""
 import logging
 import os
 import random
@@ -67,7 +73,10 @@ def drive(case):
             ep = experiment.model.storage.ExperimentPackage.packageFromLocation(pkg)
             exp = experiment.model.data.Experiment.experimentFromPackage(ep, location=tmp)
             exp.validateExperiment(checkExecutables=False)
-            ctl, keep = c05_impl._new_controller(exp, 0)
+            start = int(case.get('start') or 0)
+            if not 0 <= start < nstages:
+                return {'error': 'case:start outside the stages'}
+            ctl, keep = c05_impl._new_controller(exp, start)
             monitor = O.StatusMonitor(exp, report_components=False)
         except Exception as e:
             return {'error': 'load:' + type(e).__name__, 'msg': str(e)[:300]}
@@ -89,7 +98,7 @@ def drive(case):
         graph = exp.experimentGraph.graph
         first_loop, last_loop = case['pre'], case['pre'] + case['K'] - 1
         cond_name = 'l%d_0' % (case['K'] - 1)
-        state = {'cur': 0, 'looping': True}
+        state = {'cur': start, 'looping': True}
         events = []
 
         def stage_of(node):
@@ -113,10 +122,13 @@ def drive(case):
                 d[0] += int(node in finished_nodes)
             events.append({'event': what, 'finished': fin, 'transit': tr, 'total': totals[-1] if totals else None,
                            'done': done, 'current': state['cur'],
-                           'nodes': [[stage_of(nd), nd not in finished_nodes] for nd in sorted(graph.nodes)]})
+                           'nodes': [[stage_of(nd), nd not in delivered] for nd in sorted(graph.nodes)]})
 
-        finished_nodes = set()
-        ctl.initialise(exp._stages[0], c05_impl._FakeStatus())
+        # a restart: the components of the stages before the starting one terminated in an earlier run
+        skipped = set(n for n in graph.nodes if stage_of(n) < start)
+        finished_nodes = set(skipped)
+        delivered = set()
+        ctl.initialise(exp._stages[start], c05_impl._FakeStatus())
         report('start')
         for _step in range(400):
             ready = sorted(n for n in graph.nodes if n not in finished_nodes
@@ -131,7 +143,7 @@ def drive(case):
                 want = lo
             else:
                 ready = [n for n in ready if first_loop <= stage_of(n) <= last_loop]
-                want = first_loop
+                want = max(first_loop, start)
             if want != state['cur']:
                 state['cur'] = want
                 ctl.initialise(exp._stages[want], c05_impl._FakeStatus())
@@ -146,13 +158,15 @@ def drive(case):
             comp.controllerState = codes.FINISHED_STATE
             ctl.finishedCheck(comp.state, comp)
             finished_nodes.add(node)
+            delivered.add(node)
             report('finished ' + node)
         last = nstages - 1
         if state['cur'] != last:
             state['cur'] = last
             ctl.initialise(exp._stages[last], c05_impl._FakeStatus())
         report('end')
-        return {'events': events, 'weights': weights, 'nodes': len(graph.nodes), 'nstages': nstages}
+        return {'events': events, 'weights': weights, 'nodes': len(graph.nodes), 'nstages': nstages, 'start': start,
+                'skipped_nodes': len(skipped)}
     except Exception as e:
         import traceback
         return {'error': 'drive:' + type(e).__name__, 'msg': traceback.format_exc()[-1500:]}
